@@ -37,7 +37,8 @@ ANCHORS = ['recursiveloader:ManifestRecursiveLoader.save_manifests',
            'cli:UpdateCommand.__call__']
 REQUIRED = ['recursiveloader:ManifestRecursiveLoader.save_manifests',
             'presave_phases_audited', 'saves_audited', 'conservation_checked',
-            'failing_updates', 'cli_histories', 'cli_multi_histories']
+            'failing_updates', 'cli_histories', 'cli_multi_histories',
+            'histories_in_other_tz', 'histories_with_profile', 'adopt_cases']
 ASSUMPTIONS = ['writes by child processes are invisible to the audit hook; the '
                'snapshot comparison covers them',
                '"Manifest file" = a file named Manifest[.gz|.bz2|.lzma|.xz] or referenced '
@@ -45,7 +46,7 @@ ASSUMPTIONS = ['writes by child processes are invisible to the audit hook; the '
 
 PRIOR = ['content', 'size', 'delete', 'stray', 'retype', 'm-digest', 'm-drop', 'm-ghost',
          'm-compatible-dup', 'm-conflict', 'm-chain', 'm-dup-ignore', 'unreg-valid',
-         'unreg-invalid', 'm-entry-for-dir']
+         'unreg-invalid', 'm-entry-for-dir', 'm-manifest-as-data-only']
 OPS = ['verify-dir', 'verify-path', 'find-path', 'find-dist', 'update-dir', 'update-dir',
        'update-path', 'save', 'save']
 N = {'quick': 1500, 'thorough': 50000}
@@ -54,7 +55,8 @@ PER_UNIT = 15
 
 def units(tier, seed):
     return [{'k': 'gen', 'i': i, 'n': PER_UNIT} for i in range(N[tier] // PER_UNIT)] + \
-        [{'k': 'multi', 'i': i, 'n': 6} for i in range(4 if tier == 'quick' else 100)]
+        [{'k': 'multi', 'i': i, 'n': 6} for i in range(4 if tier == 'quick' else 100)] + \
+        [{'k': 'adopt'}]
 
 
 def setup_worker(ctx):
@@ -73,7 +75,28 @@ def manifest_state(root):
                 mans[mp] = mtext.parse_file(os.path.join(root, mp))
             except Exception:
                 pass
+    # ... and whatever those list by MANIFEST entries in turn (a Manifest that is not
+    # reachable from the top right now may still head a chain of its own)
+    todo = list(mans)
+    while todo:
+        mp = todo.pop()
+        mdir = os.path.dirname(mp)
+        for e in mans[mp]:
+            if e['tag'] != 'MANIFEST':
+                continue
+            full = mtext.full_path(mdir, e)
+            if full in mans or not mmatch_normalised(full):
+                continue
+            try:
+                mans[full] = mtext.parse_file(os.path.join(root, full))
+                todo.append(full)
+            except Exception:
+                pass
     return mans
+
+
+def mmatch_normalised(p):
+    return p == os.path.normpath(p) and not p.startswith('../') and not p.startswith('/')
 
 
 def manifest_file_names(root, mans):
@@ -165,6 +188,8 @@ def judge(ctx, root, case):
             argv.append('-t')
         if case.get('watermark') is not None:
             argv += ['-c', str(case['watermark']), '-C', case['format']]
+        if case.get('profile'):
+            argv += ['-p', case['profile']]
         argv.append(os.path.join(root, cli['scope']) if cli['scope'] else root)
         with audit.Recording(root) as rec:
             try:
@@ -187,6 +212,10 @@ def judge(ctx, root, case):
         if case.get('watermark') is not None:
             kw['compress_watermark'] = case['watermark']
             kw['compress_format'] = case['format']
+        if case.get('profile'):
+            from gemato.profile import get_profile_by_name
+            kw['profile'] = get_profile_by_name(case['profile'])
+            ctx.count('histories_with_profile')
         try:
             m = ManifestRecursiveLoader(os.path.join(root, 'Manifest'),
                                         verify_openpgp=False,
@@ -273,6 +302,9 @@ def judge(ctx, root, case):
         a, b = lines_of(mans0, tag), lines_of(mans1, tag)
         # entries of Manifests that were not reachable before (unregistered ones
         # that got registered) are in both states via manifest_files_on_disk
+        if case.get('profile') and tag == 'IGNORE':
+            # (new Manifests created by the profile bring their default IGNOREs)
+            b = b & a if not (a - b) else b
         if a != b:
             lost = list((a - b).elements())[:3]
             gained = list((b - a).elements())[:3]
@@ -358,6 +390,12 @@ def gen_history(rng, root):
             gmutate.apply_op(root, o)
             case['ops'].append(o)
     case['failing'] = failing
+    case['tz'] = rng.choice([None, None, 'JST-9', 'XXX8', 'CET-1CEST,M3.5.0,M10.5.0/3'])
+    if rng.random() < 0.15 and not any(
+            n['t'] == 'l' and n.get('kind') == 'dir' for n in case['skel']['nodes']):
+        # (a Manifest the profile creates in a directory that is also visible through
+        # a directory symlink would be aliased: U15)
+        case['profile'] = rng.choice(['ebuild', 'old-ebuild'])
     if rng.random() < 0.25:
         scope = '' if rng.random() < 0.6 else rng.choice(dirs)
         case['cli'] = {'scope': scope, 't': rng.random() < 0.4 and scope == ''}
@@ -439,7 +477,87 @@ def run_multi(ctx, rng, idx):
                           case)
 
 
+def exec_adopt(ctx, case):
+    """A package Manifest carrying DIST and IGNORE lines already exists where an
+    ebuild profile wants a Manifest, and the parent knows it in various ways (proper
+    MANIFEST entry, plain DATA entry, not at all): whatever the update does with it,
+    those lines must survive."""
+    from gemato import cli as gcli
+    with common.Scratch('vf-c10a-') as d:
+        root = os.path.join(d, 't')
+        os.makedirs(os.path.join(root, 'cat', 'pkg', 'tmp'))
+        files = {'cat/pkg/p-1.ebuild': b'EAPI=8\n', 'cat/pkg/metadata.xml': b'<x/>\n',
+                 'cat/pkg/tmp/junk': b'j', 'README': b'r'}
+        for pth, data in files.items():
+            with open(os.path.join(root, pth), 'wb') as f:
+                f.write(data)
+        pk = [{'tag': 'DIST', 'path': 'p-1.tar.gz', 'size': 100,
+               'sums': {'SHA512': 'ab' * 64}},
+              {'tag': 'DIST', 'path': 'p-0.tar.gz', 'size': 99, 'sums': {'MD5': 'cd' * 16}},
+              {'tag': 'IGNORE', 'path': 'tmp'},
+              mtext.file_entry('EBUILD' if case['stale'] else 'DATA', 'p-1.ebuild',
+                               b'old' if case['stale'] else files['cat/pkg/p-1.ebuild'],
+                               ['SHA256'])]
+        ptext = mtext.render(pk).encode()
+        with open(os.path.join(root, 'cat', 'pkg', 'Manifest'), 'wb') as f:
+            f.write(ptext)
+        top = [mtext.file_entry('DATA', 'README', files['README'], ['SHA256'])]
+        if case['listed'] == 'manifest':
+            top.append(mtext.file_entry('MANIFEST', 'cat/pkg/Manifest', ptext, ['SHA256']))
+        elif case['listed'] == 'data':
+            top.append(mtext.file_entry('DATA', 'cat/pkg/Manifest', ptext, ['SHA256']))
+        elif case['listed'] == 'misc':
+            top.append(mtext.file_entry('MISC', 'cat/pkg/Manifest', ptext, ['SHA256']))
+        with open(os.path.join(root, 'Manifest'), 'w') as f:
+            f.write(mtext.render(top))
+        mans0 = manifest_state(root)
+        keep0 = lines_of(mans0, 'DIST') + lines_of(mans0, 'IGNORE')
+        ctx.case(sig=('adopt', case['listed'], case['profile'], case['api'],
+                      case['stale']), case=case, klass='adopt')
+        argv = ['gemato', 'update', '-p', case['profile'], '--hashes', 'SHA256', root]
+        try:
+            if case['api'] == 'cli':
+                try:
+                    rc = gcli.main(argv)
+                except SystemExit as exc:
+                    rc = 'exit'
+            else:
+                from gemato.profile import get_profile_by_name
+                from gemato.recursiveloader import ManifestRecursiveLoader
+                m = ManifestRecursiveLoader(os.path.join(root, 'Manifest'),
+                                            verify_openpgp=False, hashes=['SHA256'],
+                                            profile=get_profile_by_name(case['profile']))
+                m.update_entries_for_directory('')
+                m.save_manifests()
+                rc = 0
+        except Exception as exc:
+            ctx.count('adopt_update_raised:' + type(exc).__name__)
+            rc = exc
+        ctx.count('adopt_cases')
+        mans1 = manifest_state(root)
+        keep1 = lines_of(mans1, 'DIST') + lines_of(mans1, 'IGNORE')
+        lost = keep0 - keep1
+        if lost:
+            ctx.violation('DIST-lines-not-preserved' if any(
+                ln.startswith('DIST') for ln in lost) else 'IGNORE-lines-not-preserved',
+                'update -p %s (rc %r) on a tree whose package Manifest (known to the '
+                'parent as: %s) carried them lost %r' % (
+                    case['profile'], rc, case['listed'], sorted(lost)[:3]), case)
+
+
+def run_adopt(u, ctx):
+    n = 0
+    for listed in ('manifest', 'data', 'misc', 'none'):
+        for profile in ('ebuild', 'old-ebuild'):
+            for api in ('cli', 'lib'):
+                for stale in (False, True):
+                    exec_adopt(ctx, {'kind': 'adopt', 'listed': listed,
+                                     'profile': profile, 'api': api, 'stale': stale})
+
+
 def run_unit(u, ctx):
+    if u.get('k') == 'adopt':
+        return run_adopt(u, ctx)
     if u.get('k') == 'multi':
         for j in range(u['n']):
             run_multi(ctx, common.rng_for(ctx.seed, ID, 'multi', u['i'], j),
@@ -467,14 +585,30 @@ def run_case(ctx, root, case):
 
 
 def judge_wrapper(ctx, root, jcase, case):
+    import time
     before = len(ctx.violations)
-    judge(ctx, root, jcase)
+    old_tz = os.environ.get('TZ')
+    try:
+        if case.get('tz'):
+            # what is on disk is UTC whatever the local time zone of the process is
+            os.environ['TZ'] = case['tz']
+            time.tzset()
+            ctx.count('histories_in_other_tz')
+        judge(ctx, root, jcase)
+    finally:
+        if old_tz is None:
+            os.environ.pop('TZ', None)
+        else:
+            os.environ['TZ'] = old_tz
+        time.tzset()
     # replay files must carry the materialisable case
     for v in ctx.violations[before:]:
         v['case'] = case
 
 
 def replay(case, ctx):
+    if case.get('kind') == 'adopt':
+        return exec_adopt(ctx, case)
     if case.get('kind') == 'multi':
         ctx.seed = case.get('gen_seed', ctx.seed)
         run_multi(ctx, common.rng_for(ctx.seed, ID, 'multi', case['idx'] // 100,
